@@ -644,6 +644,13 @@ func (c *glCtx) expr(e ast.Expr) (string, error) {
 			}
 			return "", fmt.Errorf("receiver field %s has an unsupported type", t.Sel.Name)
 		}
+		if id, ok := t.X.(*ast.Ident); ok && id.Name == "math" {
+			if v, ok := map[string]string{"MaxUint8": "255", "MaxUint16": "65535", "MaxUint32": "4294967295",
+				"MaxUint64": "18446744073709551615", "MaxInt8": "127", "MaxInt16": "32767", "MaxInt32": "2147483647",
+				"MaxInt64": "9223372036854775807"}[t.Sel.Name]; ok {
+				return v, nil
+			}
+		}
 		return "", fmt.Errorf("unsupported selector %s", exprName(t))
 	case *ast.UnaryExpr:
 		v, err := c.expr(t.X)
